@@ -8,7 +8,8 @@ O == "127.0.0.3"
 Cfg == [BaseCfg EXCEPT !.password = <<"srvpass">>,
           !.users = << [name |-> "reg1", nick |-> "reg1", pass |-> <<"userpass">>, mask |-> <<>>],
                        [name |-> "reg2", nick |-> "reg2", pass |-> <<>>, mask |-> <<"*!*@127.0.0.1">>],
-                       [name |-> "reg3", nick |-> "reg3", pass |-> <<"userpass">>, mask |-> <<"ann!*@*">>] >>]
+                       [name |-> "reg3", nick |-> "reg3", pass |-> <<"userpass">>, mask |-> <<"ann!*@*">>],
+                       [name |-> "Reg4", nick |-> "Reg4", pass |-> <<"userpass">>, mask |-> <<>>] >>]   \* names are compared as written
 Pre == << St(O, "!open", <<>>), St(O, "PASS", <<<<"srvpass">>>>), St(O, "NICK", <<<<"obs">>>>), St(O, "USER", <<<<"u3">>, <<"Observer">>>>),
           St(O, "JOIN", <<<<"#one">>>>), St(A, "!open", <<>>), St(B, "!open", <<>>) >>
 Gated == { St(A, "JOIN", <<<<"#one">>>>), St(A, "PRIVMSG", <<<<"obs">>, <<"psst">>>>), St(A, "NOTICE", <<<<"#one">>, <<"psst">>>>),
@@ -25,7 +26,7 @@ RegCmds(c) ==
     { St(c, "PASS", <<<<"srvpass">>>>), St(c, "PASS", <<<<"userpass">>>>), St(c, "PASS", <<<<"wrong">>>>),
       St(c, "NICK", <<<<"ann">>>>), St(c, "NICK", <<<<"obs">>>>),
       St(c, "USER", <<<<"u1">>, <<"R">>>>), St(c, "USER", <<<<"reg1">>, <<"R">>>>), St(c, "USER", <<<<"reg2">>, <<"R">>>>),
-      St(c, "USER", <<<<"reg3">>, <<"R">>>>),
+      St(c, "USER", <<<<"reg3">>, <<"R">>>>), St(c, "USER", <<<<"Reg4">>, <<"R">>>>), St(c, "USER", <<<<"reg4">>, <<"R">>>>),
       St(c, "CAP", <<<<"LS">>>>), St(c, "CAP", <<<<"REQ">>, <<"multi-prefix">>>>), St(c, "CAP", <<<<"REQ">>, <<"sasl">>>>), St(c, "CAP", <<<<"END">>>>), St(c, "QUIT", <<>>) }
 Enabled(st) == st.c \in DOMAIN S.conns
 Steps == {st \in Gated \cup RegCmds(A) \cup {St(B, "NICK", <<<<"ann">>>>), St(B, "USER", <<<<"reg2">>, <<"R">>>>), St(B, "PASS", <<<<"srvpass">>>>)} : Enabled(st)}
